@@ -9,6 +9,8 @@ import (
 	"context"
 	"fmt"
 	"io"
+	"net"
+	"os"
 	"testing"
 	"time"
 
@@ -23,6 +25,8 @@ import (
 	"verifsim/simrt"
 )
 
+var pktRun int
+
 func TestSim(t *testing.T) { common.Main(t, common.Harness{Property: "CQUIC", Run: run}) }
 
 func run(t *testing.T, tape *simrt.Tape) *common.Outcome {
@@ -36,9 +40,18 @@ func run(t *testing.T, tape *simrt.Tape) *common.Outcome {
 	defer restore()
 	var got, via string
 	var n *simnet.Net
-	res := simrt.Run(t, simrt.Config{MaxSteps: 3_000_000}, tape.S, func() {
+	res := simrt.Run(t, simrt.Config{MaxSteps: 3_000_000, TraceCap: 300000}, tape.S, func() {
 		n = simnet.New(tape.G, simnet.Config{})
 		n.SetUDP(simnet.UDPConfig{DropPermille: drop, DupPermille: dup, Latencies: lats})
+		if os.Getenv("CQUIC_PKTLOG") != "" {
+			pktRun++
+			f, _ := os.Create(fmt.Sprintf("/tmp/pktlog.%d", pktRun))
+			defer f.Close()
+			n.SetUDPFilter(func(from, to *net.UDPAddr, data []byte) simnet.UDPVerdict {
+				fmt.Fprintf(f, "%v %v len=%d first=%02x stamp=%d\n", simrt.Now(), from, len(data), data[0], simrt.Stamp())
+				return simnet.UDPPass
+			})
+		}
 		a, err := simhost.New(n, simhost.Opts{Key: simhost.DetKey(1), IP: "10.0.0.1", Port: 4001, QUIC: true, WithHost: true})
 		if err != nil {
 			o.Trouble = err.Error()
